@@ -63,6 +63,10 @@ OPTIONAL_COMBOS = [
     {'model_var': F(lambda: np.array([0.02, 0.03, 0.01])), 'diff_var': F(lambda: np.array([0.04, 0.02, 0.03])),
      'noise_ceil_var': F(lambda: np.array([[0.02, 0.02], [0.03, 0.03], [0.01, 0.01]])), 'dof': 5},
     {'model_var': F(lambda: np.array([0.02, 0.03, 0.01])), 'dof': 5}, {'diff_var': F(lambda: np.array([0.04, 0.02, 0.03])), 'dof': 5},
+    # variance estimates that came out zero or negative (the extrapolating corrections of the dual bootstrap produce them)
+    {'model_var': F(lambda: np.array([0.02, 0.0, -0.01])), 'diff_var': F(lambda: np.array([0.04, -0.02, 0.0])),
+     'noise_ceil_var': F(lambda: np.array([[0.02, 0.0], [0.0, 0.03], [-0.01, 0.01]])), 'dof': 5},
+    {'variances': F(lambda: np.array([0.04, 0.0, -0.03]))},
     {'noise_ceil_var': F(lambda: np.array([[0.02, 0.02], [0.03, 0.03], [0.01, 0.01]])), 'dof': 5},
     {'reindex': False}, {'positive': True}, {'calc_noise_ceil': False}, {'k_rdm': 2, 'k_pattern': 2},
     # the sizes of the bootstrapped factors (finite-sample corrections of the variances), with 1-D, 2-D and dual-bootstrap
@@ -239,7 +243,7 @@ class Stock:
             if fname == 't_test_nc':
                 special['noise_ceil'] = [lambda: 0.9]
             if fname == 't_tests':
-                special['variances'] = [lambda: np.array([0.04, 0.02, 0.03])]
+                special['variances'] = [lambda: np.array([0.04, 0.02, 0.03]), lambda: np.array([0.04, 0.0, -0.03])]
             if pname in special:
                 return special[pname]
         if pname == 'desc_new' and fname == 'append_descriptor':
